@@ -43,11 +43,13 @@ Print Assumptions array_iteration.
 Theorem list_iteration : forall f xs, iterates f (IList xs) xs /\ lg (IList xs) xs.
 Proof. exact IterProofs.list_summary. Qed.
 Print Assumptions list_iteration.
-(* Tree at the level of in-order positions (keyed get: not positional) *)
-Theorem tree_iteration : forall f xs, iterates f (ITree xs) xs /\ it_len repaired (ITree xs) = OVal (zlen xs).
+(* Tree: iter_init/next/last/prev follow child and parent links (Tree_Iter_*); over EVERY binary tree shape
+   (so whatever the red-black balancing of C03 does) the walk visits the nodes in in-order sequence,
+   backward = reverse, len = number of nodes.  (Keyed get: not positional.) *)
+Theorem tree_iteration : forall f T,
+  iterates f (ITree T) (inorder T) /\ it_len repaired (ITree T) = OVal (zlen (inorder T)).
 Proof. exact IterProofs.tree_summary. Qed.
 Print Assumptions tree_iteration.
-
 (* Tuple of DISTINCT objects (cursor = the element pointer; NoDup excludes open finding F3, see 8.) *)
 Theorem tuple_iteration : forall f (items : list (nat * val)), NoDup (map fst items) ->
   iterates f (ITuple items) (map snd items) /\ lg (ITuple items) (map snd items).
